@@ -111,6 +111,8 @@ TStep ==
          lnk == LinkAt(T, e.as, e.eg)
          p2 == e.k = "fwd" => (lnk # 0 /\ lnk \notin env.down)                    \* only over existing, up links
          p3 == Accept(e.k) = Accept(r.k)                                           \* accept/reject = reference router
+         p4 == env.fam \in {"honest", "honest-rev"} => Accept(e.k)                 \* C01: an offered path (and the reverse of the
+                                                                                   \* delivered one) carries the packet
          \* --- conformance
          i0 == loc.as = e.as /\ loc.ifin = e.ifin
          i1 == e.k = r.k \/ (e.k \in {"drop", "error"} /\ r.k = "reject")
@@ -122,12 +124,13 @@ TStep ==
      IN /\ Soft(p1, "P", "delivered-elsewhere", ctx)
         /\ Soft(p2, "P", "forward-bad-link", ctx)
         /\ Soft(p3, "P", "accept-mismatch", ctx)
+        /\ Soft(p4, "P", "honest-not-delivered", ctx)
         /\ Soft(i0, "I", "position", ctx)
         /\ Soft(~p3 \/ i1, "I", "verdict-kind", ctx)
         /\ Soft(i2, "I", "header-state", ctx)
         /\ Soft(~p3 \/ i3, "I", "error-class", ctx)
         /\ cnt' = [cnt EXCEPT !.steps = @ + 1,
-                              !.p = @ + (IF p1 THEN 0 ELSE 1) + (IF p2 THEN 0 ELSE 1) + (IF p3 THEN 0 ELSE 1),
+                              !.p = @ + (IF p1 THEN 0 ELSE 1) + (IF p2 THEN 0 ELSE 1) + (IF p3 THEN 0 ELSE 1) + (IF p4 THEN 0 ELSE 1),
                               !.i = @ + (IF i0 THEN 0 ELSE 1) + (IF i2 THEN 0 ELSE 1) + (IF ~p3 \/ (i1 /\ i3) THEN 0 ELSE 1)]
   \* continue from the REAL state
   /\ pkt' = IF e.k = "fwd" /\ Len(e.segids1) = Len(pkt.segs)
